@@ -391,6 +391,9 @@ func gen(o hreg.Opts, w *bufio.Writer) error {
 			tt = append(tt, strconv.FormatUint(t, 10))
 		}
 		line("chain", "%s %s", s, strings.Join(tt, " "))
+		if s.e[4] != 0 {
+			line("dom", "%s %s %s", s, hx(rnd32(rng)), strings.Join(tt, " "))
+		}
 		if s.e[0] == 0 || i%4 == 0 {
 			// the same walk from a genesis in the fork of epoch 0 (identical to the phase0 genesis if altair > 0)
 			st.Add("chain-genesis-fork", strconv.Itoa(func() int {
@@ -458,6 +461,7 @@ func gen(o hreg.Opts, w *bufio.Writer) error {
 		}
 		st.Add("chain-genesis-fork", strconv.Itoa(k))
 		line("chaing", "%s %s", s, strings.Join(tt, " "))
+		line("dom", "%s %s %s", s, hx(rnd32(rng)), strings.Join(tt, " "))
 		line("chain", "%s %s", s, strings.Join(tt, " ")) // phase0 genesis on the same schedule: never upgrades
 	}
 	// --- envelope round trips
@@ -759,6 +763,76 @@ func upgradeAtGenesis(spec *common.Spec, s sched, st common.BeaconState, epc *co
 		return nil, err
 	}
 	return cur, nil
+}
+
+func slotRoot(t uint64) common.Root {
+	var r common.Root
+	for i := 0; i < 4; i++ {
+		binary.LittleEndian.PutUint64(r[8*i:], t)
+	}
+	return r
+}
+
+// runDom walks a chain (genesis in the fork of epoch 0) to each target slot and reports, per target, what the
+// STATE says about versions: common.GetDomain(state, DOMAIN_BEACON_PROPOSER, epoch) for the epochs before, at
+// and after the state's epoch, and whether an envelope for that slot — signed under the state-derived proposer
+// domain, digest from the state's current version — passes BeaconBlockEnvelope.VerifySignature.
+func runDom(s sched, gvr common.Root, targets []uint64) string {
+	spec := s.apply(configs.Minimal)
+	state, epc, err := kickstart(spec, 32)
+	if err != nil {
+		return "err"
+	}
+	if s.e[4] == 0 {
+		return "bad-op"
+	}
+	st0, err := upgradeAtGenesis(spec, s, state, epc)
+	if err != nil {
+		return "err"
+	}
+	if err := st0.SetGenesisValidatorsRoot(gvr); err != nil {
+		return "err"
+	}
+	up := &beacon.StandardUpgradeableBeaconState{BeaconState: st0}
+	var out []string
+	for _, t := range targets {
+		if err := common.ProcessSlots(context.Background(), spec, epc, up, common.Slot(t)); err != nil {
+			out = append(out, "err")
+			break
+		}
+		e := uint64(spec.SlotToEpoch(common.Slot(t)))
+		var parts []string
+		for _, me := range []uint64{e - 1, e, e + 1} {
+			if e == 0 && me == e-1 {
+				parts = append(parts, "-")
+				continue
+			}
+			d, err := common.GetDomain(up.BeaconState, common.DOMAIN_BEACON_PROPOSER, common.Epoch(me))
+			if err != nil {
+				parts = append(parts, "err")
+				continue
+			}
+			parts = append(parts, hex.EncodeToString(d[:]))
+		}
+		d0, err := common.GetDomain(up.BeaconState, common.DOMAIN_BEACON_PROPOSER, common.Epoch(e))
+		f, err2 := up.BeaconState.Fork()
+		if err != nil || err2 != nil {
+			out = append(out, "err")
+			break
+		}
+		root := slotRoot(t)
+		msg := common.ComputeSigningRoot(root, d0)
+		env := &common.BeaconBlockEnvelope{
+			ForkDigest:        common.ComputeForkDigest(f.CurrentVersion, gvr),
+			BeaconBlockHeader: common.BeaconBlockHeader{Slot: common.Slot(t), ProposerIndex: 3},
+			BlockRoot:         root,
+			Signature:         common.BLSSignature(blsu.Sign(secretKey(0), msg[:]).Serialize()),
+		}
+		ok := env.VerifySignature(spec, gvr, 3, &common.CachedPubkey{Compressed: pubkey(0)})
+		parts = append(parts, hreg.B2S(ok))
+		out = append(out, strconv.FormatUint(t, 10)+":"+strings.Join(parts, ","))
+	}
+	return "ok " + strings.Join(out, " ")
 }
 
 func runChain(s sched, targets []uint64, atFork bool) string {
@@ -1090,6 +1164,23 @@ func exec(o hreg.Opts, sc *bufio.Scanner, w *bufio.Writer) error {
 					ts = append(ts, t)
 				}
 				return runChain(s, ts, f[0] == "chaing")
+			case f[0] == "dom" && len(f) >= 4:
+				s, ok := parseSched(f[1])
+				gb, err := hex.DecodeString(f[2])
+				if !ok || !s.monotone() || err != nil || len(gb) != 32 || s.spe == 0 {
+					return "bad-op"
+				}
+				var gvr common.Root
+				copy(gvr[:], gb)
+				var ts []uint64
+				for _, x := range f[3:] {
+					t, err := strconv.ParseUint(x, 10, 64)
+					if err != nil {
+						return "bad-op"
+					}
+					ts = append(ts, t)
+				}
+				return runDom(s, gvr, ts)
 			case f[0] == "env" && len(f) == 3:
 				seed, err := strconv.ParseInt(f[2], 10, 64)
 				if err != nil {
